@@ -13,8 +13,12 @@ func VPH_footnotes() {
 	f := NewFootnotes()
 	var texts []string
 	var cites []string
+	ascii := vp_Choice("ascii-only", 2) == 1 // second family: ASCII names (control characters included)
 	for i := 0; i < k; i++ {
 		t := vp_Str("text", vp_Choice("len", tl+1))
+		if ascii {
+			vp_AssumeASCII(t)
+		}
 		texts = append(texts, t)
 		cites = append(cites, f.CreateCitation(t))
 	}
@@ -84,5 +88,26 @@ func VPH_row() {
 	panicked := vp_Catch(func() { t.formatRow(name, cite, "1", "", "") })
 	vp_Assert(!panicked, "formatRow does not panic for any nesting depth / name length")
 	vp_KnownRegionEnd("KF-e")
+	vp_Reach("end")
+}
+
+// VPH_pathJSON: names reach JSON only through encoding/json's string
+// encoder (which escapes any byte sequence into valid JSON); the encoder
+// itself is trusted, what is checked is that it is the one used, on the
+// exact description text.
+func VPH_pathJSON() {
+	if vp_Native() {
+		vp_Reach("end")
+		return
+	}
+	name := vp_Str("name", 3)
+	p := &Path{OID: vpMkOID('b', 1), objectType: "blob", relativePath: name}
+	before := vp_JSONCalls()
+	_, err := p.MarshalJSON()
+	vp_Assert(err == nil, "MarshalJSON ok")
+	vp_Assert(vp_JSONCalls() == before+1, "the description is encoded by encoding/json, once")
+	s, ok := vp_LastJSON().(string)
+	vp_Assert(ok && s == p.String(), "what is encoded is exactly the description text")
+	vp_Assert(p.String() == p.OID.String()+" ("+name+")", "description = <oid> (<name>) with the exact name bytes")
 	vp_Reach("end")
 }
